@@ -404,7 +404,9 @@ def row_binop(i, sym, a, b, n):
     fa, sa = side(a)
     fb, sb = side(b)
     f = uf(f"{name}_{sa}_{sb}", sa, sb, Row)
-    return Arr(nn, "row", lambda k: f(fa(k), fb(k)), f"({ka}{sym}{kb})", a.meta if isinstance(a, Arr) else b.meta)
+    # the result is a two-dimensional array like the row operand (its namespace / dtype tokens), not like a broadcast vector or scalar
+    meta = a.meta if (isinstance(a, Arr) and a.elem == "row") else (b.meta if isinstance(b, Arr) and b.elem == "row" else (a.meta if isinstance(a, Arr) else b.meta))
+    return Arr(nn, "row", lambda k: f(fa(k), fb(k)), f"({ka}{sym}{kb})", meta)
 
 
 def arr_compare(i, op, a, b, n):
@@ -556,6 +558,10 @@ def install_arrays(reg: Registry):
         x = a[0]
         if isinstance(x, Arr) and x.elem == "xreal":
             return Arr(x.n, "bool", lambda kk, _at=x.at: X.is_nan(_at(kk)), f"isnan({x.key})", x.meta)
+        if isinstance(x, Sym) and x.tag == "xreal":
+            return B(X.is_nan(x.e))           # a scalar of the extended reals (np.nan, +-inf)
+        if isinstance(x, Z) and x.kind in ("real", "int"):
+            return B(False)                   # a real number is not NaN (A-REAL)
         return _isnan_real(i, a, k, n)
 
     unary("isinf", uf("isinf", RS, BS), "bool")
@@ -795,7 +801,13 @@ def install_arrays(reg: Registry):
 
     @H("xp.atleast_2d")
     def atleast_2d(i, a, k, n):
-        return a[0]
+        x = a[0]
+        if isinstance(x, Arr) and x.meta.get("single_point"):
+            # a single un-batched point (shape (D,)): becomes a batch of one row; its length as a 1-d array was D, as a batch it is 1
+            row = z3.Const(f"row_of<{x.key}>", Row)
+            meta = {kk: v for kk, v in x.meta.items() if kk != "single_point"}
+            return Arr(z3.IntVal(1), "row", lambda kk, _r=row: _r, f"atleast_2d({x.key})", meta)
+        return x
 
     @H("xp.atleast_1d")
     def atleast_1d(i, a, k, n):
